@@ -16,7 +16,8 @@ func init() {
 			"(publish-by-reassign) slices and maps that are handed out as snapshots (ObjectStorage.packs, DotGit.objectList/packList) are only ever replaced as a whole, never appended to or indexed for writing in place; " +
 			"(lazy-init-on-read-path) every plain (non-atomic, non-sync) field of the shared storage structs that is assigned outside a constructor is in the guard table or in the reviewed exemption list, so a lazily " +
 			"initialised field cannot be added without a lock; (lazy-init-blocks) every CompareAndSwap gate in the module is either the close-once idiom (negated, the losers return) or does not build receiver state in its body — " +
-			"a one-time build behind a positive gate would let the losers read the half-built state. Not decided: spurious failures or not-found answers under particular schedules; races through aliased snapshots' elements.",
+			"a one-time build behind a positive gate would let the losers read the half-built state; (lock-order, shared with C24) no SharedFile method calls the descriptor pool while holding its own mutex and the pool never calls Member.ReleaseNow while holding p.mu — " +
+			"the two call each other, and an inversion is a deadlock after which no read on the storage returns. Not decided: spurious failures or not-found answers under particular schedules; races through aliased snapshots' elements.",
 		Assumptions: []string{"sync.Mutex/RWMutex/Once/singleflight semantics", "constructors run before the value is shared"},
 		Run:         runC23,
 	})
@@ -34,6 +35,8 @@ func storageGuards() []GuardSpec {
 
 func runC23(c *Ctx) {
 	p := c.P
+	// readers share descriptors through SharedFile and the pool: an inverted lock order there blocks every reader (shared with C24)
+	checkPoolLockOrder(c, "lock-order")
 	const r1 = "guarded-by"
 	n := 0
 	for _, gs := range storageGuards() {
